@@ -59,8 +59,6 @@ def execute(ch, config):
         cfg = ServerConfig(version=version, starttls=starttls, max_script_size=12000, max_total=30000)
     world = World(ch, cfg, client_impl=config.get("client", "real"), read_size=rsz)
     s.world = world
-    with ch.scope("run"):
-        world.debug = wl.flag("debug", 1, 6)
     srv = world.server
     srv.status_variation = True
     srv.data_variation = True
